@@ -40,7 +40,7 @@ q, t = tiers(150, 60, 8000, 1200)
 plan("C15", "exploration",
      "one case = one seeded run as for C04 (thorough adds sustained-load runs of 16-64 requests); distinct = distinct schedule signature; "
      "non-trivial = at least two requests in flight at once. Oracle: the enabled set (decided by TryLock on the real mutexes) is never empty "
-     "while requests remain, every request returns, locker call discipline per request.",
+     "while requests remain, every request returns, and a final drain phase (one request per key plus one naming all keys) completes.",
      q, t)
 
 HIST_RULE = ("one case = one seeded history of 5-60 conflict-seeking {kind} requests (advance / same-{unit} / lower / boundary values incl. >= 2^63; "
